@@ -286,7 +286,9 @@ def drive(recipe):
                 lab = (sym, sym.upper(), sym.lower() + str(k + 1), sym.upper() + str(10 * k + 3))[(k + len(ids) + a) % 4]
                 # files of other programs carry further per-atom columns after x, y, z (a charge, a force vector)
                 more = ("", " %.4f" % (0.1 * k - 0.3), " 0.25 -1.5 3.0", "")[(len(ids) + ids[0]) % 4]
-                lines.append("%s %r %r %r%s" % (lab, float(xyz[k][0]), float(xyz[k][1]), float(xyz[k][2]), more))
+                # numbers as other programs print them: shortest repr, or exponent notation (1.25000000e+00, 4.2e-05)
+                fm = ("%r", "%.10e", "%r", "%.12E")[(len(ids) + 3 * ids[0]) % 4]
+                lines.append("%s %s %s %s%s" % (lab, fm % float(xyz[k][0]), fm % float(xyz[k][1]), fm % float(xyz[k][2]), more))
             path = os.path.join(recipe["via_file"], "atoms.xyz")
             with open(path, "w") as fh:
                 fh.write("\n".join(lines) + "\n")
